@@ -48,6 +48,75 @@ TECHNIQUE = ('path enumeration + canonical atoms + world enumeration (typestate 
 
 
 # ---------------------------------------------------------------------------
+# normal form shared by all rules: `match` statements over a pure subject become if/elif chains
+# ---------------------------------------------------------------------------
+
+class _MatchToIf(ast.NodeTransformer):
+    """PEP 634 subset -> if/elif/else: value patterns (`case Enum.X:` -> subject == Enum.X), singletons (`is`), zero-argument class patterns
+    (`case A():` -> isinstance(subject, A)), or-patterns of those, wildcard `case _:`, guards.  The subject must be a name / attribute chain
+    (evaluated once by `match`, re-read by every test of the chain: equal for a pure subject; case bodies run after all tests of their path).
+    A `match` using anything else (captures, sequence / mapping patterns, sub-patterns) is left in place: the engine then answers Undecided."""
+
+    def _cond(self, subj: ast.expr, p: ast.AST) -> T.Optional[ast.expr]:
+        import copy
+        s = copy.deepcopy(subj)
+        if isinstance(p, ast.MatchValue) and (attr_chain(p.value) or isinstance(p.value, ast.Constant)):
+            return ast.Compare(left=s, ops=[ast.Eq()], comparators=[p.value])
+        if isinstance(p, ast.MatchSingleton):
+            return ast.Compare(left=s, ops=[ast.Is()], comparators=[ast.Constant(value=p.value)])
+        if isinstance(p, ast.MatchClass) and not p.patterns and not p.kwd_patterns and attr_chain(p.cls):
+            return ast.Call(func=ast.Name(id='isinstance', ctx=ast.Load()), args=[s, p.cls], keywords=[])
+        if isinstance(p, ast.MatchOr):
+            subs = [self._cond(subj, q) for q in p.patterns]
+            if any(x is None for x in subs):
+                return None
+            if all(isinstance(q, ast.MatchClass) for q in p.patterns):
+                return ast.Call(func=ast.Name(id='isinstance', ctx=ast.Load()), args=[s, ast.Tuple(elts=[q.cls for q in p.patterns], ctx=ast.Load())], keywords=[])   # type: ignore[attr-defined]
+            return ast.BoolOp(op=ast.Or(), values=T.cast(T.List[ast.expr], subs))
+        return None
+
+    def visit_Match(self, n: T.Any) -> ast.AST:
+        self.generic_visit(n)
+        if not attr_chain(n.subject):
+            return n
+        arms: T.List[T.Tuple[T.Optional[ast.expr], T.List[ast.stmt]]] = []
+        for case in n.cases:
+            wild = isinstance(case.pattern, ast.MatchAs) and case.pattern.pattern is None and case.pattern.name is None
+            c = None if wild else self._cond(n.subject, case.pattern)
+            if c is None and not wild:
+                return n
+            if case.guard is not None:
+                c = case.guard if c is None else ast.BoolOp(op=ast.And(), values=[c, case.guard])
+            arms.append((c, case.body))
+            if c is None:
+                break      # irrefutable: later cases are unreachable (a SyntaxError in Python anyway)
+        out: T.List[ast.stmt] = []
+        for c, body in reversed(arms):
+            if c is None:
+                out = list(body)
+            else:
+                out = [ast.copy_location(ast.If(test=c, body=list(body), orelse=out), body[0])]
+        if arms and arms[0][0] is None:
+            out = [ast.copy_location(ast.If(test=ast.Constant(value=True), body=out, orelse=[]), n)]
+        if not out:
+            return ast.copy_location(ast.Pass(), n)
+        res = ast.copy_location(out[0], n)
+        ast.fix_missing_locations(res)
+        return res
+
+
+def _module(ctx: RuleCtx, rel: str) -> Module:
+    """The module with `match` statements rewritten in place (function nodes keep their identity; the Repo object belongs to this run)."""
+    mod = ctx.repo.module(rel)
+    if not getattr(mod, '_c12_match_desugared', False):
+        if hasattr(ast, 'Match') and any(isinstance(x, ast.Match) for x in ast.walk(mod.tree)):
+            _MatchToIf().visit(mod.tree)
+            mod._parents = None
+        mod._c12_match_desugared = True   # type: ignore[attr-defined]
+    return mod
+
+
+# ---------------------------------------------------------------------------
 # R1 / R2: the scheduler protocol
 # ---------------------------------------------------------------------------
 
@@ -141,7 +210,7 @@ def _waiting_primitive(ctx: RuleCtx, mod: Module, name: str) -> None:
 
 
 def r1(ctx: RuleCtx) -> None:
-    mod = ctx.repo.module(MTEST)
+    mod = _module(ctx, MTEST)
     s = Sched(mod)
     fq = 'TestHarness._run_tests'
     if mod.has_func('complete'):   # the single-future primitive may have been inlined as `await future`
@@ -900,7 +969,7 @@ def _lt_const(a: Atom, v: bool, chain: str, roles: T.Dict[str, str]) -> T.Option
 
 
 def r2(ctx: RuleCtx) -> None:
-    mod = ctx.repo.module(MTEST)
+    mod = _module(ctx, MTEST)
     s = Sched(mod)
     fq = 'TestHarness._run_tests'
     # semaphores created in _run_tests
@@ -1644,7 +1713,7 @@ def _delegates(ctx: RuleCtx, mod: Module, qn: str, fn: T.Any, callee: str) -> No
 
 
 def r3a(ctx: RuleCtx) -> None:
-    mod = ctx.repo.module(MTEST)
+    mod = _module(ctx, MTEST)
     protos = _protocol_classes(mod)
     ctx.floor('protocol classes registered in PROTOCOL_TO_CLASS', len(protos), 4)
     members = _enum_names(mod, 'TestResult')
@@ -1705,7 +1774,7 @@ def r3a(ctx: RuleCtx) -> None:
 # ---------------------------------------------------------------------------
 
 def r3b(ctx: RuleCtx) -> None:
-    mod = ctx.repo.module(MTEST)
+    mod = _module(ctx, MTEST)
     init, expr, cls = _testrun_arg(mod, 'timeout')
     roles = _init_roles(mod, 'SingleTestRunner')
     e1 = _inline_locals(init, expr, calls=set(mod.methods('SingleTestRunner')))
@@ -1957,7 +2026,7 @@ FIELDS = ('is_parallel', 'expected_fail', 'expected_exitcode', 'timeout', 'proto
 
 
 def r3c(ctx: RuleCtx) -> None:
-    mod = ctx.repo.module(BACKENDS)
+    mod = _module(ctx, BACKENDS)
     entry_q = 'Backend.create_test_serialisation'
     entry = mod.func(entry_q)
     builders = [q for q, f in mod.funcs().items() if q.startswith('Backend.') and q.count('.') == 1
@@ -2132,7 +2201,7 @@ def _function_status(ctx: RuleCtx, mod: Module, q: str, fn: T.Any, depth: int = 
 
 
 def r4(ctx: RuleCtx) -> None:
-    mod = ctx.repo.module(MTEST)
+    mod = _module(ctx, MTEST)
     members = _enum_names(mod, 'TestResult')
     bad = _method_member_set(ctx, mod, 'is_bad')
     finished = _method_member_set(ctx, mod, 'is_finished')
@@ -2570,7 +2639,7 @@ def _selection_fn(ctx: RuleCtx, mod: Module) -> T.Tuple[str, T.Any]:
 
 
 def r5(ctx: RuleCtx) -> None:
-    mod = ctx.repo.module(MTEST)
+    mod = _module(ctx, MTEST)
     # (a) argument parser: "i/n" -> (int(part 0), int(part 1)), accepted iff 0 < i, 0 < n, not n < i
     tq = 'test_slice'
     tsf = mod.func(tq)
@@ -2694,7 +2763,7 @@ def _bind_args(call: ast.Call, params: T.List[str]) -> T.Dict[str, ast.AST]:
 
 
 def r6(ctx: RuleCtx) -> None:
-    mod = ctx.repo.module(MTEST)
+    mod = _module(ctx, MTEST)
     gq, fn = _selection_fn(ctx, mod)
     last = fn.body[-1]
     if not (isinstance(last, ast.Return) and isinstance(last.value, ast.Name)):
@@ -2883,8 +2952,8 @@ def _jobs_argument(mod: Module) -> ast.Call:
 
 
 def r8(ctx: RuleCtx) -> None:
-    mod = ctx.repo.module(MTEST)
-    um = ctx.repo.module(UNIVERSAL)
+    mod = _module(ctx, MTEST)
+    um = _module(ctx, UNIVERSAL)
     add = _jobs_argument(mod)
     # (a) the default of -j is the environment request, MESON_TESTTHREADS included (Unit-tests.md)
     dflt = kwarg(add, 'default')
@@ -3014,7 +3083,7 @@ CLOCKS = ('time', 'monotonic', 'perf_counter')
 
 
 def r7(ctx: RuleCtx) -> None:
-    mod = ctx.repo.module(MTEST)
+    mod = _module(ctx, MTEST)
     n = 0
     for q, fn in mod.funcs().items():
         if not isinstance(fn, ast.AsyncFunctionDef):
@@ -3171,7 +3240,7 @@ def _deferred_kill_loops(f: T.Any, q: str) -> T.Dict[int, T.List[ast.Call]]:
 
 
 def r9(ctx: RuleCtx) -> None:
-    mod = ctx.repo.module(MTEST)
+    mod = _module(ctx, MTEST)
     direct = {q for q, f in mod.funcs().items() if q.count('.') == 1 and any(isinstance(c, ast.Attribute) and attr_chain(c) == 'os.killpg' for c in walk_no_nested(f))}   # called or deferred
     if not direct:
         raise Undecided('no method signals a process group (os.killpg): the termination of a timed-out test is implemented in a way this rule does not read')
